@@ -1216,6 +1216,21 @@ def run_shard(shard):
             else:
                 sh("ip", "link", "del", "vprobe0")
                 sh("ip", "link", "set", "lo", "up")
+                # one directed table per shard ahead of the random ones: the classes earlier rounds asked for must not depend
+                # on the draw - the longest renderings (a fully spelled-out link-local on a 15-character name: 39 + 1 + 15
+                # characters), a name that is not UTF-8, a point-to-point link without a hardware address
+                rng0 = harness.rng_for(shard["seed"], "c17n-directed", shard["part"])
+                ll = lambda: "fe80:" + ":".join("%x" % rng0.randrange(0x1000, 0x10000) for _ in range(7)) + "/64"  # noqa: E731
+                mac = lambda: "02:%02x:%02x:%02x:%02x:%02x" % tuple(rng0.randrange(256) for _ in range(5))  # noqa: E731
+                run_netns_case(dict(kind="netns", ifs=[
+                    dict(name="x" * 14 + "0", peer=("p" + "x" * 14), type="veth", mtu=1500, up=True, mac=mac(),
+                         addrs=[ll(), "10.%d.%d.7/19" % (rng0.randrange(256), rng0.randrange(256)), "fd%02x::%x/64" % (rng0.randrange(256), rng0.randrange(1, 65535))]),
+                    dict(name=rng0.choice(["caf\udce9-1", "\udcff\udcfe-1", "veth-%d-1" % shard["part"]]), peer="pdirected1", type="veth",
+                         mtu=rng0.choice([1280, 9000]), up=True, mac=mac(), addrs=[ll(), ll()]),
+                    dict(name="t0", peer="pt0", type="tun", mtu=1400, up=True, mac=mac(),
+                         addrs=["10.8.%d.2 peer 10.8.%d.1/32" % (rng0.randrange(256), rng0.randrange(256)), "fd00::%x peer fd00::%x/128" % (rng0.randrange(1, 9999), rng0.randrange(1, 9999))]),
+                ]), acc)
+                acc.count("netns_directed_tables")
                 for i in range(shard["count"]):
                     run_netns_case(gen_if_config(harness.rng_for(shard["seed"], "c17n", shard["part"], i), i), acc)
         elif k == "suite":
